@@ -531,6 +531,12 @@ def repr_values(condition: Callable[..., bool], lambda_inspection: Optional[Cond
             key: value for key, value in selected_kwargs.items() if key in condition_parameters
         }
 
+        # The parameters of the condition which the call does not supply take their default values
+        # (and must not be looked up in the closure or among the global variables).
+        for parameter in condition_parameters.values():
+            if parameter.name not in condition_kwargs and parameter.default is not inspect.Parameter.empty:
+                condition_kwargs[parameter.name] = parameter.default
+
         variable_lookup = collect_variable_lookup(condition=condition, resolved_kwargs=condition_kwargs)
 
         recompute_visitor = icontract._recompute.Visitor(variable_lookup=variable_lookup)
